@@ -1215,6 +1215,20 @@ def d4b(ctx: Ctx):
                 if d_ is not None:
                     rw = d_
                     height_names.add(n.value.id)
+    if rw is None:
+        # the width enters through a once-bound local (`row_bytes = cols >> 3; rows = size // row_bytes`): substitute it
+        class _Sub(ast.NodeTransformer):
+            def visit_Name(self, n_):
+                r_ = resolve_alias(fn, n_)
+                if r_ is not n_ and isinstance(n_.ctx, ast.Load) and any(isinstance(x, ast.Name) and x.id == cols_p for x in ast.walk(r_)):
+                    return copy.deepcopy(r_)
+                return n_
+
+        for n in cand:
+            v_ = _Sub().visit(copy.deepcopy(n.value))
+            if any(isinstance(x, ast.Name) and x.id == cols_p for x in ast.walk(v_)):
+                rw = ast.copy_location(ast.Assign(targets=n.targets, value=ast.fix_missing_locations(v_)), n)
+                break
     ctx.need(rw is not None, "maxtoppm.rows", "derivation of the height from the length field not found")
     others = sorted(names_loaded(rw.value) - {cols_p})
     ctx.need(len(others) == 1, "maxtoppm.rows", f"height is derived from {others}")
@@ -1235,7 +1249,7 @@ def d4b(ctx: Ctx):
         "" if ok else f"rows are derived as `{unparse(v)}`; the file holds `{lenvar}` bytes of `{cols_p}/8` bytes per row, so the height is floor(8*{lenvar}/{cols_p}): heights that are not a multiple of 8 come out wrong (and the consistency test then rejects a good file)",
         file=rel,
         line=rw.lineno,
-        witness="" if ok else "a 256x100 MAX file (3200 data bytes)",
+        witness="" if ok else ("-w 100: a width that is not a multiple of 8" if any(isinstance(x, (ast.RShift, ast.FloorDiv)) for x in ast.walk(v.right if isinstance(v, ast.BinOp) else v)) else "a 256x100 MAX file (3200 data bytes)"),
     )
     def _test_names(t_: ast.AST) -> Set[str]:
         # names the test reads, looking through single-assignment locals (`actual = cols * rows // 8; if actual != size`)
@@ -1824,6 +1838,18 @@ def d12(ctx: Ctx):
             for s_ in n.body:
                 if isinstance(s_, ast.Assign) and isinstance(s_.targets[0], ast.Name) and isinstance(s_.value, ast.Constant):
                     vals[s_.targets[0].id] = s_.value.value
+            if len([v for v in vals.values() if isinstance(v, int)]) == 4:
+                # a fifth quantity computed once after the branches from the four that are assigned in them
+                # (`orig_len = width // 8`): evaluated with this type's own values
+                from .decoders import IntEvalError as _IEE, int_eval as _ie
+
+                env4 = {a: b for a, b in vals.items() if isinstance(b, int)}
+                for d_ in st.body:
+                    if isinstance(d_, ast.Assign) and len(d_.targets) == 1 and isinstance(d_.targets[0], ast.Name) and d_.targets[0].id not in env4 and not isinstance(d_.value, ast.Constant) and names_loaded(d_.value) and names_loaded(d_.value) <= set(env4):
+                        try:
+                            vals[d_.targets[0].id] = int(_ie(d_.value, env4))
+                        except _IEE:
+                            pass
             ints = tuple(v for v in vals.values() if isinstance(v, int))
             if len(ints) == 5:
                 eq = isinstance(n.test.ops[0], ast.Eq)
